@@ -461,7 +461,8 @@ def run_async_side(spec: dict, flavours: Optional[List[str]] = None, fn_flavours
                    fault: Optional[Fault] = None, steps: Optional[int] = None, susp: int = 0, fn_susp: int = 0,
                    log: bool = True, ops: Optional[List[int]] = None, cancel_at: Optional[int] = None,
                    cancel_exc: Optional[BaseException] = None, close_after: bool = False,
-                   outer_flavour: str = "async_class", poke_at: Optional[int] = None) -> Side:
+                   outer_flavour: str = "async_class", poke_at: Optional[int] = None,
+                   athrow: Optional[BaseException] = None) -> Side:
     """Run the asyncstdlib tool on probes of the requested flavours under the driver."""
     side = Side()
     CTX.reset()
@@ -548,6 +549,16 @@ def run_async_side(spec: dict, flavours: Optional[List[str]] = None, fn_flavours
                 CTX.ev("yield", canon(item))
                 del item
             CTX.ev(*side.term)
+            if athrow is not None and side.term == ("open",) and hasattr(it, "athrow"):
+                # the consumer throws into the library iterator at this position
+                try:
+                    await it.athrow(athrow)
+                except StopAsyncIteration:
+                    side.term = ("athrow", "stop")
+                except BaseException as exc:  # noqa: BLE001
+                    side.term = ("athrow", type(exc).__name__, exc is athrow)
+                else:
+                    side.term = ("athrow", "yielded")
         finally:
             if close_after:
                 aclose = getattr(it, "aclose", None)
